@@ -163,6 +163,9 @@ func makeFields(nType *graphql.ObjectType, iType *graphql.InterfaceType) map[str
 		"pn": {Type: nType},
 		"z":  {Type: graphql.IntType, Cost: graphql.FieldResolverCost(0)},
 		"k": {Type: nType, Arguments: map[string]*graphql.InputValueDefinition{"first": {Type: graphql.IntType}, "last": {Type: graphql.IntType}}, Cost: func(ctx graphql.FieldCostContext) graphql.FieldCost {
+			if kSeen != nil { // argument-resolution tie (raw.go): what ctx.Arguments holds
+				*kSeen = append(*kSeen, [2]string{argEntry(ctx.Arguments, "first"), argEntry(ctx.Arguments, "last")})
+			}
 			n, _ := intArg(ctx.Arguments, "first")
 			if last, ok := intArg(ctx.Arguments, "last"); ok {
 				n = last
